@@ -351,3 +351,120 @@ func (g *G) genConcurrent(id string) *History {
 	}
 	return h
 }
+
+// genChain: a stored response is revalidated (304 carrying its own Age / Date / Cache-Control, or
+// replaced by a 200), and later requests are aimed at the boundaries of the lifetime as it is
+// AFTER that exchange - the ages a cache gets wrong when the freshening drops or keeps a field.
+func (g *G) genChain(id string) *History {
+	h := &History{ID: id, Prop: g.prop, Class: "chain", Backend: pick(g, "mem", "mem", "mem", "fs"), Logger: "discard"}
+	url := "http://a.test/c"
+	L := pick(g, int64(5), 10, 60, 100, 3600)
+	first := Hdr{{"Cache-Control", "max-age=" + strconv.FormatInt(L, 10) + pick(g, "", "", ", stale-if-error=100", ", stale-while-revalidate=30", ", must-revalidate")}}
+	if g.chance(0.9) {
+		first = append(first, [2]string{"Date", dateAt(0, 0)})
+	}
+	switch g.r.Intn(3) {
+	case 0:
+		first = append(first, [2]string{"Etag", `"v1"`})
+	case 1:
+		first = append(first, [2]string{"Last-Modified", dateAt(0, -1000)})
+	}
+	if g.chance(0.3) {
+		first = append(first, [2]string{"Age", pick(g, "1", "3", strconv.FormatInt(L-1, 10))})
+	}
+	h.Ops = append(h.Ops, Op{Op: "req", AtNs: 0, Method: "GET", URL: url, Replies: []Reply{{Status: 200, Hdr: first, Body: "c0", BodyFail: -1}}})
+	cur := int64(0)
+	life := L
+	rounds := 1 + g.r.Intn(3)
+	for i := 0; i < rounds; i++ {
+		// the validating exchange
+		var hdr Hdr
+		at := cur + (life+pick(g, int64(1), 2, 7))*sec
+		if g.chance(0.3) {
+			at = cur + pick(g, int64(6), 7, life/2+6)*sec
+			hdr = Hdr{{"Cache-Control", pick(g, "no-cache", "max-age=0")}}
+		}
+		if g.chance(0.1) {
+			hdr = append(hdr, [2]string{"If-None-Match", `"client"`})
+		}
+		N := pick(g, int64(0), 0, 1, 5, 30, 55, life-1, life, life+5)
+		if N < 0 {
+			N = 0
+		}
+		delay := pick(g, int64(0), 0, 0, sec, 2*sec)
+		rh := Hdr{}
+		switch g.r.Intn(5) {
+		case 0: // no Date
+		case 1:
+			rh = append(rh, [2]string{"Date", dateAt(at+delay, -N)})
+		case 2:
+			rh = append(rh, [2]string{"Date", dateAt(at+delay, -100)})
+		default:
+			rh = append(rh, [2]string{"Date", dateAt(at+delay, 0)})
+		}
+		if N > 0 || g.chance(0.1) {
+			rh = append(rh, [2]string{"Age", pick(g, strconv.FormatInt(N, 10), strconv.FormatInt(N, 10), strconv.FormatInt(N, 10), "junk", " "+strconv.FormatInt(N, 10))})
+		}
+		newLife := life
+		if g.chance(0.4) {
+			newLife = pick(g, int64(5), 10, 60, 100, 3600)
+			rh = append(rh, [2]string{"Cache-Control", "max-age=" + strconv.FormatInt(newLife, 10) + pick(g, "", "", ", stale-if-error=100", ", stale-while-revalidate=30")})
+		}
+		if g.chance(0.2) {
+			rh = append(rh, [2]string{"Expires", dateAt(at, pick(g, int64(-10), 10, 1000))})
+		}
+		if g.chance(0.3) {
+			rh = append(rh, [2]string{"X-New", "n" + strconv.Itoa(i)})
+		}
+		if g.chance(0.15) {
+			rh = append(rh, [2]string{"Content-Length", "999"})
+		}
+		var rp Reply
+		switch g.r.Intn(10) {
+		case 0, 1:
+			rh = append(rh, [2]string{"Etag", `"v2"`})
+			rp = Reply{Status: 200, Hdr: rh, Body: "c" + strconv.Itoa(i+1), DelayNs: delay, BodyFail: -1}
+		case 2:
+			rp = Reply{Status: pick(g, 500, 503, 404), Hdr: rh, Body: "e", DelayNs: delay, BodyFail: -1}
+			newLife = life
+		default:
+			rp = Reply{Status: 304, Hdr: rh, DelayNs: delay, BodyFail: -1}
+		}
+		bg := rp
+		bg.DelayNs = sec / 2
+		h.Ops = append(h.Ops, Op{Op: "req", AtNs: at, Method: "GET", URL: url, Hdr: hdr, Replies: []Reply{rp, bg}})
+		if h.Backend != "mem" && g.chance(0.2) {
+			h.Ops = append(h.Ops, Op{Op: "reopen", AtNs: at + delay})
+		}
+		cur = at + delay
+		life = newLife
+		// probes around the lifetime as it is now (with and without the reply's Age)
+		nProbe := 1 + g.r.Intn(2)
+		pcur := cur
+		for j := 0; j < nProbe; j++ {
+			off := pick(g, life-N-1, life-N, life-N+1, life-1, life, life+1, 1, life/2, life-N-delay/sec, life-N-delay/sec-1)
+			pat := cur + off*sec
+			if g.chance(0.2) {
+				pat += pick(g, int64(1), -1)
+			}
+			if pat <= pcur+5*sec {
+				pat = pcur + 5*sec + pick(g, int64(0), 1)
+			}
+			var ph Hdr
+			if g.chance(0.25) {
+				ph = Hdr{{"Cache-Control", ccJoin(g.genReqCC())}}
+				if ph[0][1] == "" {
+					ph = nil
+				}
+			}
+			st := storedSpec{}
+			f1 := g.validationReply(pat, st)
+			b1 := g.validationReply(pat, st)
+			b1.DelayNs = sec / 2
+			h.Ops = append(h.Ops, Op{Op: "req", AtNs: pat, Method: "GET", URL: url, Hdr: ph, Replies: []Reply{f1, b1}})
+			pcur = pat + max(f1.DelayNs, b1.DelayNs)
+		}
+		cur = pcur
+	}
+	return h
+}
